@@ -761,9 +761,9 @@ int main(int argc, char** argv) {
     a.miningDegrees   = mining && std::string(cb.scheme) == "mining-degrees";
     a.miningSort      = rng.chance(1, 2);
     unsigned threads  = onlyThreads > 0 ? (unsigned)onlyThreads : 1 + (unsigned)rng.below(2);
-    a.defaults        = rng.chance(1, 4);
+    a.defaults        = rng.chance(1, 5);
     a.cuspAsync       = rng.chance(1, 2);
-    a.stateRounds     = (uint32_t)rng.pick<uint64_t>({1, 1, 2, 3, 7, 100, 100});
+    a.stateRounds     = (uint32_t)rng.pick<uint64_t>({1, 1, 2, 3, 7, 25, 100});
     a.readPolicy      = (unsigned)rng.below(3);
     a.nodeWeight      = (uint32_t)rng.pick<uint64_t>({0, 0, 1, 5, 50});
     a.edgeWeight      = (uint32_t)rng.pick<uint64_t>({0, 0, 1, 3});
@@ -838,7 +838,7 @@ int main(int argc, char** argv) {
       comp += "/no-edges";
     else if (N < np)
       comp += "/nodes<hosts";
-    std::string cls;
+    const std::string cls; // no further class: the component carries it
     const std::string params =
         J().kv("component", comp).kv("scheme", cb.scheme).kv("dir", cb.dir).kv("hosts", np).kv("threads", threads)
                      .kv("input", a.inCSC ? "CSC" : "CSR").kv("output", a.outCSC ? "CSC" : "CSR").kv("symmetric", a.symmetric)
@@ -923,10 +923,16 @@ int main(int argc, char** argv) {
     bool transposedFlag = parsed && obs[0].transposed;
     bool someEmptyHost  = C.hostsNoNodes > 0;
     bool nontrivial     = parsed && np >= 2 && M > 0 && (C.mirrors > 0 || C.hostsNoEdges + 1 < np);
+    // option class: only what can influence the run (rounds/async only drive the master assignment phase of
+    // GingerP/FennelP/Sugar*; the read policy is overridden by a masters file); the Input.h default call is
+    // the class async/many-rounds/rp1
+    std::string opt;
+    if (!readMasterPolicy(cb.policy))
+      opt = std::string(a.cuspAsync ? "async" : "bsp") + (a.stateRounds == 1 ? "/r1" : a.stateRounds <= 7 ? "/rfew" : "/rmany");
+    if (!wantMasters)
+      opt += "/rp" + std::to_string(a.readPolicy);
     std::string sig = std::string(cb.scheme) + "/" + cb.dir + "|np" + std::to_string(np) + "|t" + std::to_string(threads) + "|" +
-                      kind + "|" + (a.edgeData ? "u32" : fileEsz ? "void+data" : "void") + "|" +
-                      (a.defaults ? "dflt" : std::string(a.cuspAsync ? "async" : "bsp") + "/r" + std::to_string(a.stateRounds) +
-                                                 "/rp" + std::to_string(a.readPolicy)) +
+                      kind + "|" + (a.edgeData ? "u32" : fileEsz ? "void+data" : "void") + "|" + opt +
                       (wantMasters ? "|mf" : "") + (someEmptyHost ? "|emptyhost" : "");
     H.end(k, sig, nontrivial,
           J().kv("edges_checked", C.edges).kv("proxies_checked", C.proxies).kv("masters", C.masters).kv("mirrors", C.mirrors)
